@@ -99,6 +99,13 @@ def main():
         for pos in gen.sample(rng, POS, 6 if thorough else 2):
             partner = nm[:2] + rng.choice(["", "A", "ZZ"])
             add(nm, pos, partner if isname(partner) else nm, rng.choice(POS))
+    # names beginning with a two-letter BASIC09 reserved word that Color BASIC allows (DO, PI, SQ): all spellings are one variable
+    for w in ("DO", "PI", "SQ"):
+        for a, b in ((w + "G", w + "T"), (w + "1", w), (w + "G", w), (w + "GS", w + "1")):
+            for pos in gen.sample(rng, [p for p in POS if p[1] in ("n", "na")], 6):
+                add(a, pos, b, rng.choice([p for p in POS if p[1] == pos[1]]))
+            for pos in gen.sample(rng, [p for p in POS if p[1] in ("s", "sa")], 3):
+                add(a, pos, b, rng.choice([p for p in POS if p[1] == pos[1]]))
     if thorough:
         for _ in range(40000):
             add(rng.choice(allnames), rng.choice(POS), rng.choice(allnames), rng.choice(POS))
